@@ -379,6 +379,40 @@ def d_initializer_value_info_symbolic(m):
 
 
 @_dev
+def d_expression_dim_params(m):
+    """dim_param texts that parse as arithmetic, in spellings a symbolic engine would print differently."""
+    for nm, texts in (("a", ("N+1", "batch*2")), ("b2", ("seq-1", "N//2", "max(N,8)")), ("b3", ("1+N",))):
+        sh = onnx.TensorShapeProto()
+        for t in texts:
+            sh.dim.add().dim_param = t
+        m.graph.value_info.add().CopyFrom(value_info(nm, tensor_type(TP.FLOAT, sh), f"doc of {nm}", 1))
+    m.graph.node.add().CopyFrom(node("Neg", ["a"], ["b2"], "n_b2"))
+    m.graph.node.add().CopyFrom(node("Abs", ["b2"], ["b3"], "n_b3"))
+    q = m.graph.quantization_annotation.add()
+    q.tensor_name = "b2"
+    e = q.quant_parameter_tensor_names.add()
+    e.key, e.value = "SCALE_TENSOR", "w"
+
+
+@_dev
+def d_constant_nodes(m):
+    """Constant nodes in every spelling; tensor attributes with an empty, an own and a value-equal name."""
+    g = m.graph
+    for i, tname in enumerate(("", "own_tensor_name", "k2")):
+        n = node("Constant", [], [f"k{i}"], f"n_k{i}")
+        a = n.attribute.add()
+        a.name, a.type = "value", onnx.AttributeProto.TENSOR
+        a.t.CopyFrom(tensor(TP.FLOAT, [3], "raw_data", name=tname))
+        g.node.add().CopyFrom(n)
+        g.node.add().CopyFrom(node("Add", ["a", f"k{i}"], [f"ak{i}"], f"n_ak{i}"))
+    n = node("Constant", [], ["kf"], "n_kf")
+    a = n.attribute.add()
+    a.name, a.type, a.f = "value_float", onnx.AttributeProto.FLOAT, 1.5
+    g.node.add().CopyFrom(n)
+    g.node.add().CopyFrom(node("Mul", ["a", "kf"], ["akf"], "n_akf"))
+
+
+@_dev
 def d_value_info_without_type(m):
     m.graph.value_info.add().CopyFrom(value_info("a", None, "only a doc string"))
 
